@@ -22,6 +22,10 @@ pub trait TimeUntil {
 
 impl TimeUntil for Instant {
     fn time_until(&self) -> Duration {
+        #[cfg(tarpc_verif)]
+        if true {
+            return self.duration_since(crate::verif::now());
+        }
         self.duration_since(Instant::now())
     }
 }
